@@ -209,12 +209,13 @@ TIE = {
     'C01': (['Vise.Tie.Render'], "render.Sizer.Check (the comparison every size theorem rests on) and render.Menu.reset"),
     'C02': (['Vise.Tie.StateNav', 'Vise.Tie.Render'], "state.State.Next / Previous / Sides / Top / Same (page index arithmetic and which lateral entries are on offer), render.Menu.reset (re-arming of the lateral entries) and render.Sizer.Check"),
     'C03': (['Vise.Tie.StateNav'], "state.State.Previous (IndexError on page 0, the 'no match' case of '<') and Next / Top / Same"),
-    'C04': (['Vise.Tie.StateNav'], "state.State.Next / Previous / Same / Top / Sides (page index, move counter, last move)"),
+    'C04': (['Vise.Tie.StateNav', 'Vise.Tie.StateStack'], "state.State.Next / Previous / Same / Top / Sides (page index, move counter, last move) and Down / Up (the navigation stack, with both explicit panics of Down)"),
+    'C08': (['Vise.Tie.StateStack'], "state.State.Down and Up (the navigation stack; `none` of the regenerated definition is a run-time panic: the two explicit panics of Down are the only ones, no index or slice expression is ever out of range)"),
     'C05': (['Vise.Tie.Cache'], "cache.Cache.checkCapacity and Levels"),
     'C06': (['Vise.Tie.StateFlags'], "state.IsWriteableFlag and toByteSize"),
     'C09': (['Vise.Tie.Cache'], "cache.Cache.checkCapacity and Levels"),
     'C10': (['Vise.Tie.DbLock'], "db.DbBase.Safe, CheckPut and SetLock with defaultLock inlined (the write-protection tests, locking, unlocking and sealing)"),
-    'C11': (['Vise.Tie.DbKey'], "db.ToDbKey and db.DbBase.ToSessionKey (the storage key derivation the injectivity theorems are about)"),
+    'C11': (['Vise.Tie.DbKey'], "db.ToDbKey and db.DbBase.ToSessionKey (the storage key derivation the injectivity theorems are about), and their inverses db.FromDbKey and DbBase.FromSessionKey (what a listing decodes; FromDbKey never panics)"),
 }
 for _p, (_mods, _what) in TIE.items():
     PROPS[_p]['prop_modules'] = PROPS[_p]['prop_modules'] + _mods
@@ -222,5 +223,5 @@ for _p, (_mods, _what) in TIE.items():
     PROPS[_p]['trusted'] = PROPS[_p]['trusted'] + [
         "regenerated tie: " + _what + " are translated from the current Go source by harness/cmd/gotrans (a go/ast + go/types "
         "translator for straight-line integer / byte-string code: uintN as Nat reduced mod 2^N after every operation, receiver fields as "
-        "parameters, assigned fields returned, argument-less methods of the receiver inlined, logging dropped) and proved equal to the model's definitions (" + ', '.join(_mods) +
-        "); trusted here: the translator itself (about 750 lines) and Go's semantics of the translated fragment; the rest of the model is tied by sampling"]
+        "parameters, assigned fields returned, argument-less methods of the receiver inlined, logging dropped; functions that index, slice or panic are translated into the Option monad with Go's bounds checks written out and `int` as Int) and proved equal to the model's definitions (" + ', '.join(_mods) +
+        "); trusted here: the translator itself (about 900 lines) and Go's semantics of the translated fragment; the rest of the model is tied by sampling"]
